@@ -351,6 +351,23 @@ func (s *Sys) Apply(op string) (obs, class string, viols []bfs.Viol) {
 			return "invalid-basic", "gov " + f[1] + " refused stateless", nil
 		}
 		handler := s.c.App.GovKeeper.Router().GetRoute(content.ProposalRoute())
+		// a toggle flips the switch of exactly the pair it names (by contract or by any of its denominations)
+		enabledBefore := map[string]bool{}
+		target := ""
+		if f[1] == "toggle" {
+			for _, p := range s.pairs() {
+				enabledBefore[p.ERC20Address] = p.Enabled
+				if tp := content.(*aggregatetypes.ToggleTokenRelayProposal); strings.EqualFold(tp.Token, p.ERC20Address) {
+					target = p.ERC20Address
+				} else {
+					for _, d := range p.Denoms {
+						if d == tp.Token {
+							target = p.ERC20Address
+						}
+					}
+				}
+			}
+		}
 		var err error
 		s.w.Do(s.c, func(ctx sdk.Context) {
 			cctx, write := ctx.CacheContext()
@@ -363,6 +380,21 @@ func (s *Sys) Apply(op string) (obs, class string, viols []bfs.Viol) {
 		if err != nil {
 			class = "gov " + f[1] + " failed"
 			obs = class + ": " + err.Error()
+		}
+		if f[1] == "toggle" {
+			for _, p := range s.pairs() {
+				was, known := enabledBefore[p.ERC20Address]
+				want := was
+				if err == nil && p.ERC20Address == target {
+					want = !was
+				}
+				if known && p.Enabled != want {
+					add("C11", "toggle-did-not-flip-exactly-the-named-pair", fmt.Sprintf("%s (err=%v): pair %s %v enabled %v -> %v, want %v", op, err, p.ERC20Address, p.Denoms, was, p.Enabled, want))
+				}
+			}
+			if err == nil && target == "" {
+				add("C11", "toggle-of-an-unregistered-token-succeeded", op)
+			}
 		}
 		return obs, class, s.registryCheck(add)
 	case "reimport": // the aggregate module's state goes through its own genesis export and import (a restart from an exported genesis)
